@@ -36,6 +36,13 @@ def enum_len(f, body, expr):
         if ty is None:
             # field of self: look the field type up in the ADT table
             ty = field_option_payload(f, inner)
+    if ty is None and x[0] == "elem":
+        # a member of a set of squares (the writer toggles a whole set and keys each member)
+        S_ = x[1]
+        if S_[0] == "param":
+            for i in range(1, body.argc + 1):
+                if body.local_name(i) == S_[1] and body.locals[i]["ty"] == "cozy_chess_types::bitboard::BitBoard":
+                    ty = "cozy_chess_types::square::Square"
     if ty is None:
         return None, None
     adt = f.adts.get(ty)
